@@ -8,6 +8,8 @@ from mc import devex
 from mc.vloop import World
 
 DATA = b"ab\r\ncdef\nx12;gh\r\n\r\nij\n\nx3;klmnopqr\r\nstuvwxyz0123456789"
+# short streams: the whole stream fits in two short reads, so a read is completed while the EOF is processed
+SHORT = [b"abcd\nx\n", b"abc\r\nx1;\r\n\r\ny"]
 RX_BLANK = re.compile(rb"\r?\n\r?\n")
 RX_TOK = re.compile(rb"x[0-9]+;")
 
@@ -29,10 +31,10 @@ def programs(maxlen):
         yield from itertools.product(range(len(OPS)), repeat=n)
 
 
-def run(ch, prog, chunk, bytewise=False):
+def run(ch, prog, chunk, bytewise=False, data=None):
     """Execute one read program under one arrival schedule."""
     from tornado.iostream import IOStream, StreamClosedError
-    data = DATA
+    data = DATA if data is None else data
     with World() as w:
         sock = w.socket()
         s = IOStream(sock, read_chunk_size=chunk)
@@ -116,7 +118,7 @@ def run(ch, prog, chunk, bytewise=False):
         return results, errs
 
 
-def judge(prog, results):
+def judge(prog, results, data=None):
     """Return list of (sig, msg).  Reference: the stream alone."""
     bad = []
     p = 0
@@ -124,7 +126,7 @@ def judge(prog, results):
     for i, res in enumerate(results):
         op = OPS[prog[i]]
         kind, val, extra, delivered, is_closed = res
-        rest = DATA[p:]
+        rest = (DATA if data is None else data)[p:]
         name = "%s%s" % (op[0], ":mb" if op[0] in ("ru", "rur") and op[2] is not None else
                          ":partial" if op[0] in ("rb", "ri") and op[2] else "")
         ctx = ":after-close" if closed else ""
@@ -246,7 +248,8 @@ class C11(Check):
     level = "model_checking"
     rule = ("all read programs of length <= L over 14 read kinds (read_bytes / partial, read_into / partial, "
             "read_until with and without max_bytes incl. exact-fit and overflow, read_until_regex with and "
-            "without max_bytes, read_until_close) on a 55-byte stream; environment choices: size of the next "
+            "without max_bytes, read_until_close) on a 55-byte stream and on two short streams (7 and 14 bytes, so that a read completes while the EOF is "
+            "being processed); environment choices: size of the next "
             "segment in {rest, 1, 2, chunk-1, chunk, chunk+1}, 'segment arrives before the next read is "
             "issued', EOF after the data; explored with deviation bound D from the default (everything at "
             "once, read issued first) plus the byte-at-a-time schedule; read_chunk_size 4 (and 8 in thorough); "
@@ -274,61 +277,66 @@ class C11(Check):
             nsl = 64 if len(progs) > 500 else 16
             for s in range(nsl):
                 parts.append((L, D, chunk, s, nsl))
+        for di in range(len(SHORT)):
+            for s in range(8):
+                parts.append((2 if tier == "quick" else 3, 2, 4, s, 8, di))
         return parts
 
     def run_partition(self, part, tier, st):
-        L, D, chunk, s, nsl = part
+        L, D, chunk, s, nsl = part[:5]
+        data = SHORT[part[5]] if len(part) > 5 else None
         progs = list(programs(L))
-        if L == 3:
+        if L == 3 and data is None:
             progs = [p for p in progs if len(p) == 3]
         for pi, prog in enumerate(progs):
             if pi % nsl != s:
                 continue
-            self.explore_prog(prog, D, chunk, st)
+            self.explore_prog(prog, D, chunk, st, data, part[5] if len(part) > 5 else None)
         st.setmax("deviation_bound_completed", D)
         st.setmax("max_program_length", L)
 
-    def explore_prog(self, prog, D, chunk, st):
+    def explore_prog(self, prog, D, chunk, st, data=None, di=None):
         def on_exec(ch, obs):
             results, errs = obs
             st.ev()
             st.transitions += len(ch.trace)
-            key = h((prog, chunk, tuple(ch.choices())))
+            key = h((prog, chunk, di, tuple(ch.choices())))
             st.states.add(key)
             if any(c for c in ch.choices()):
                 st.nontrivial.add(key)
             st.outcome(h(repr([(r[0], r[1]) for r in results])))
-            for sig, msg in judge(prog, results):
-                st.violation(sig, "program %r chunk=%d choices %r: %s"
-                             % ([OPS[i] for i in prog], chunk, ch.choices(), msg),
-                             {"prog": list(prog), "chunk": chunk, "choices": ch.choices()})
+            for sig, msg in judge(prog, results, data):
+                st.violation(sig, "program %r chunk=%d%s choices %r: %s"
+                             % ([OPS[i] for i in prog], chunk, "" if data is None else " stream %r" % data, ch.choices(), msg),
+                             {"prog": list(prog), "chunk": chunk, "choices": ch.choices(), "short": di})
             if errs:
                 st.violation("error-log:" + errs[0][2][:30], "program %r: log %r" % (prog, errs[:2]),
-                             {"prog": list(prog), "chunk": chunk, "choices": ch.choices()})
-        devex.explore(lambda ch: run(ch, prog, chunk), bound=D, on_exec=on_exec)
+                             {"prog": list(prog), "chunk": chunk, "choices": ch.choices(), "short": di})
+        devex.explore(lambda ch: run(ch, prog, chunk, data=data), bound=D, on_exec=on_exec)
         # byte-at-a-time schedule
         ch = devex.Chooser()
-        obs = run(ch, prog, chunk, bytewise=True)
+        obs = run(ch, prog, chunk, bytewise=True, data=data)
         st.ev()
-        st.states.add(h((prog, chunk, "bytewise")))
-        for sig, msg in judge(prog, obs[0]):
+        st.states.add(h((prog, chunk, di, "bytewise")))
+        for sig, msg in judge(prog, obs[0], data):
             st.violation(sig, "program %r chunk=%d bytewise: %s" % ([OPS[i] for i in prog], chunk, msg),
-                         {"prog": list(prog), "chunk": chunk, "choices": "bytewise"})
+                         {"prog": list(prog), "chunk": chunk, "choices": "bytewise", "short": di})
         # determinism: replay the default schedule twice
         if len(st.samples) < 2:
-            a = run(devex.Chooser(), prog, chunk)
-            b = run(devex.Chooser(), prog, chunk)
+            a = run(devex.Chooser(), prog, chunk, data=data)
+            b = run(devex.Chooser(), prog, chunk, data=data)
             if repr(a) != repr(b):
                 st.error("nondeterministic replay for %r" % (prog,))
             st.sample({"program": [repr(OPS[i]) for i in prog], "default_schedule_results": repr(a[0])[:300]})
 
     def replay(self, case):
         prog = tuple(case["prog"])
+        data = SHORT[case["short"]] if case.get("short") is not None else None
         if case["choices"] == "bytewise":
-            obs = run(devex.Chooser(), prog, case["chunk"], bytewise=True)
+            obs = run(devex.Chooser(), prog, case["chunk"], bytewise=True, data=data)
         else:
-            obs = run(devex.Chooser(case["choices"]), prog, case["chunk"])
-        return "program %r\nresults %r\nverdict %r" % ([OPS[i] for i in prog], obs[0], judge(prog, obs[0]))
+            obs = run(devex.Chooser(case["choices"]), prog, case["chunk"], data=data)
+        return "program %r\nresults %r\nverdict %r" % ([OPS[i] for i in prog], obs[0], judge(prog, obs[0], data))
 
 
 CHECK = C11()
